@@ -10,7 +10,7 @@ TRUST = ("Trusted base: the harness (model backend rlbox_vsbx_sandbox.hpp, mon.h
 
 # id -> (technique, level text, design_ref, extra note)
 CLAIMED = {
-    "C06": ("runtime monitoring: exhaustive/sampled value sweeps of the real conversion code against a 128-bit integer reference oracle (flag-mode abort capture), plus monitored store/load/invoke/callback/array paths on three foreign-ABI model backends under ASan+UBSan",
+    "C06": ("runtime monitoring: exhaustive/sampled value sweeps of the real conversion code against a 128-bit integer reference oracle (flag-mode abort capture), plus monitored store/load/invoke/callback/array paths (arrays incl. bool elements) on three foreign-ABI model backends under ASan+UBSan",
             "Exploration with an exact reference oracle. Every ordered pair of the 15 integer types is swept through convert_type_fundamental: exhaustively for sources <=16 bit (quick) / <=32 bit (thorough), boundaries +-neighbourhood and random for wider sources; the same oracle judges real stores, loads, arguments, results, callback arguments/results and array elements on ILP32, NARROW and WIDE model backends, with the guest-side value read from raw memory / the guest event log.",
             "DESIGN.md section 5 C06", ""),
     "C16": ("runtime monitoring: generated operator forms (compiler used only as feasibility filter) executed under ASan+UBSan and compared value-by-value with the plain C++ expression (lock-step reference)",
